@@ -1109,3 +1109,82 @@ func isBoolInput(v ssa.Value) bool {
 	}
 	return false
 }
+
+func init() {
+	p := Properties["C10"]
+	p.Rules = append(p.Rules, Rule{"C10/type-walks-bounded", ruleC10TypeWalks})
+}
+
+// A loop that walks down a Go type by replacing a reflect.Type variable with its own Elem() terminates only
+// if the chain of element types is finite. It is not for a declared type that is its own element type
+// (type P *P): For/ForType would spin forever. Such a loop must consult (and extend) a set of types already
+// seen, or be bounded by a counter.
+func ruleC10TypeWalks(c *Ctx) {
+	const rule = "C10/type-walks-bounded"
+	n := 0
+	for _, fn := range c.Closure(rule, "INF").Sorted() {
+		if !c.P.InPkg(fn) || len(fn.Blocks) == 0 {
+			continue
+		}
+		core.EachInstr(fn, func(i ssa.Instruction) {
+			phi, ok := i.(*ssa.Phi)
+			if !ok || !isNamed(phi.Type(), "reflect", "Type") {
+				return
+			}
+			header := phi.Block()
+			for ei, e := range phi.Edges {
+				call, ok := e.(*ssa.Call)
+				if !ok || !call.Call.IsInvoke() || call.Call.Method.Name() != "Elem" || call.Call.Value != phi {
+					continue
+				}
+				latch := header.Preds[ei]
+				if !header.Dominates(latch) {
+					continue
+				}
+				n++
+				inLoop := func(b *ssa.BasicBlock) bool {
+					return header.Dominates(b) && (b == latch || core.Reachable(b, latch, map[*ssa.BasicBlock]bool{header: true}))
+				}
+				checked, recorded, counted := false, false, false
+				for _, b := range fn.Blocks {
+					if b != header && !inLoop(b) {
+						continue
+					}
+					for _, ins := range b.Instrs {
+						switch x := ins.(type) {
+						case *ssa.MapUpdate:
+							if x.Key == ssa.Value(phi) {
+								recorded = true
+							}
+						case *ssa.If:
+							exits := false
+							for _, s := range b.Succs {
+								if s != header && !inLoop(s) {
+									exits = true
+								}
+							}
+							if !exits {
+								continue
+							}
+							for _, v := range backSlice(x.Cond, 50) {
+								if lk, ok := v.(*ssa.Lookup); ok && lk.Index == ssa.Value(phi) {
+									checked = true
+								}
+								if bo, ok := v.(*ssa.BinOp); ok {
+									if p2, ok := bo.X.(*ssa.Phi); ok && p2.Block() == header && isIntType(p2.Type()) {
+										counted = true
+									}
+								}
+							}
+						}
+					}
+				}
+				c.R.Check(checked && recorded || counted, rule, core.FuncName(fn)+":elem-walk", c.pos(call),
+					"a loop that descends through element types consults and extends a set of visited types (or counts its steps)",
+					"the loop replaces a reflect.Type by its own Elem() until the kind changes, without remembering the types it has passed: for a declared type that is its own element type (type P *P) it never ends, so For/ForType hang")
+			}
+		})
+	}
+	c.R.Floor(rule, "element-type walks in the inference closure", n, 1)
+}
+
